@@ -56,7 +56,7 @@ def run(ctx):
             return all(a[i] == w for i, w in enumerate(want) if w is not None)
         return p
     sid_guard = eq_matcher(r"^self\.sid$", r"^TbsIdCert::subject_key_identifier\(self\.ee_cert\)$")
-    dig_guard = eq_matcher(r"^Context::finish\(context⟵DigestAlgorithm::start\(self\.digest_algorithm\)\)$", r"^self\.message_digest$")
+    dig_guard = eq_matcher(r"^Context::finish\(\w+⟵DigestAlgorithm::start\(self\.digest_algorithm\)\)$", r"^self\.message_digest$")
     sinks = [
         ("R-CHK", "verify_sig", MustPass(f, K.sink_verify_sig, name="verify_sig")),
         ("R-CHK", "IdCert::validate_ee_at(self.ee_cert, issuer_key, when)",
